@@ -1,0 +1,59 @@
+// Copyright 2021-present The Atlas Authors. All rights reserved.
+// This source code is licensed under the Apache 2.0 license found
+// in the LICENSE file in the root directory of this source tree.
+
+//go:build verif
+
+// Package verifbridge re-exports a few helpers of the internal sqlx package for the external
+// verification harness. It is compiled only with the "verif" build tag and is not part of Atlas.
+package verifbridge
+
+import (
+	"ariga.io/atlas/sql/internal/sqlx"
+	"ariga.io/atlas/sql/migrate"
+	"ariga.io/atlas/sql/schema"
+)
+
+func builder(quote byte, qualifier *string) *sqlx.Builder {
+	return &sqlx.Builder{QuoteOpening: quote, QuoteClosing: quote, Schema: qualifier}
+}
+
+// TableIdent is Builder.Table.
+func TableIdent(quote byte, qualifier *string, t *schema.Table) string {
+	return builder(quote, qualifier).Table(t).String()
+}
+
+// RefTableIdent is Builder.RefTable.
+func RefTableIdent(quote byte, qualifier *string, child, parent *schema.Table) string {
+	return builder(quote, qualifier).RefTable(child, parent).String()
+}
+
+// TableColumnIdent is Builder.TableColumn.
+func TableColumnIdent(quote byte, qualifier *string, t *schema.Table, c *schema.Column) string {
+	return builder(quote, qualifier).TableColumn(t, c).String()
+}
+
+// TableIndexIdent is Builder.TableResource for an index.
+func TableIndexIdent(quote byte, qualifier *string, t *schema.Table, i *schema.Index) string {
+	return builder(quote, qualifier).TableResource(t, i).String()
+}
+
+// SchemaResourceIdent is Builder.SchemaResource.
+func SchemaResourceIdent(quote byte, qualifier *string, s *schema.Schema, name string) string {
+	return builder(quote, qualifier).SchemaResource(s, name).String()
+}
+
+// CheckChangesScope is sqlx.CheckChangesScope.
+func CheckChangesScope(opts migrate.PlanOptions, changes []schema.Change) error {
+	return sqlx.CheckChangesScope(opts, changes)
+}
+
+// DetachCycles is sqlx.DetachCycles.
+func DetachCycles(changes []schema.Change) ([]schema.Change, error) {
+	return sqlx.DetachCycles(changes)
+}
+
+// SortChanges is sqlx.SortChanges.
+func SortChanges(changes []schema.Change) []schema.Change {
+	return sqlx.SortChanges(changes, nil)
+}
